@@ -830,3 +830,32 @@ MUTANTS += [
     B("c08-polynomial-reversed-slice-takes-the-constant-twice", ["C08"], FN, _POLY_OLD, _poly_slice("::-1")),
     B("c08-polynomial-reversed-slice-stops-before-the-leading-term", ["C08"], FN, _POLY_OLD, _poly_slice("-2:0:-1")),
 ]
+
+MUTANTS += [
+    # ---- seventh wave: R-REPORT-READONLY, computed horizon, read-only export, typed constant names, justified bounds, flowtime premise ----
+    B("c09-renderer-prepends-to-the-reported-change-times", ["C09", "C17", "C11", "C16"], PL,
+      "            all_x = [0] + buffer.level_change_times + [solution.horizon]",
+      "            all_x = buffer.level_change_times\n            all_x.insert(0, 0)\n            all_x.append(solution.horizon)"),
+    B("c17-renderer-sorts-the-assignments-in-place", ["C17", "C11"], PL,
+      "            for task_name, start, end in ress.assignments:", "            ress.assignments.sort()\n            for task_name, start, end in ress.assignments:"),
+    T("c17-twin-renderer-sorts-a-copy", ["C17", "C11"], PL,
+      "            for task_name, start, end in ress.assignments:", "            for task_name, start, end in list(ress.assignments):"),
+    B("c11-horizon-derived-after-the-bound-is-asserted", ["C11", "C01"], PB,
+      "        # the counter to be decremented in the get_unique_negative_integer method\n",
+      "        if self.horizon is None and self.delta_time is not None and self.end_time is not None and self.start_time is not None:\n            self.horizon = (self.end_time - self.start_time) // self.delta_time\n        # the counter to be decremented in the get_unique_negative_integer method\n"),
+    B("c17-horizon-derived-as-a-float", ["C17", "C11"], PB,
+      "        if self.horizon is not None:\n            self.append_z3_assertion(self._horizon <= self.horizon)",
+      "        if self.horizon is None and self.delta_time is not None and self.end_time is not None and self.start_time is not None:\n            self.horizon = (self.end_time - self.start_time) / self.delta_time\n        if self.horizon is not None:\n            self.append_z3_assertion(self._horizon <= self.horizon)"),
+    T("c17-twin-horizon-derived-as-an-integer-before-the-bound", ["C17", "C11", "C01"], PB,
+      "        if self.horizon is not None:\n            self.append_z3_assertion(self._horizon <= self.horizon)",
+      "        if self.horizon is None and self.delta_time is not None and self.end_time is not None and self.start_time is not None:\n            self.horizon = (self.end_time - self.start_time) // self.delta_time\n        if self.horizon is not None:\n            self.append_z3_assertion(self._horizon <= self.horizon)"),
+    B("c13-export-checks-the-solver", ["C13", "C16"], SV,
+      "        with open(smt_filename, \"w\", encoding=\"utf-8\") as outfile:\n",
+      "        status = self._solver.check()\n        with open(smt_filename, \"w\", encoding=\"utf-8\") as outfile:\n"),
+    B("c16-indicator-constant-named-like-the-indicator", ["C16", "C14"], IND,
+      "z3.Int(f\"Indicator_{self.name}\")", "z3.Int(self.name)"),
+    B("c15-cost-indicator-declares-a-lower-bound", ["C15", "C07"], IND,
+      "        constant_costs = []\n        variable_costs = []\n", "        self.bounds = (0, None)\n        constant_costs = []\n        variable_costs = []\n"),
+    B("c15-utilisation-bounds-widened", ["C15", "C07"], IND,
+      "        self.bounds = (0, 100)", "        self.bounds = (1, 100)"),
+]
